@@ -62,6 +62,15 @@ def analyse(name, A, gen, vr, unit_props):
     R.panic_sites = A.panic_sites
     R.obligations = hqv.count_obligations(A)
     R.fn_info = {n: info for (_, _, n, info) in A.fn_ranges}
+    # property tags that occur on clauses of a function (a function serves a property through its `props` or through a tagged clause)
+    _lines = A.text.split("\n")
+    R.fn_tags = {}
+    for (st, en, n, _info) in A.fn_ranges:
+        tg = set()
+        for l in _lines[st - 1:en]:
+            if "//:" in l:
+                tg |= set(hqv.tags_of(l) or [])
+        R.fn_tags[n] = sorted(tg)
     if vr["timeout"]:
         R.status = "undecided"
         R.reason = "verus timeout"
@@ -158,7 +167,7 @@ def cmd_unit(args):
     if getattr(args, "json", False):
         print("HQJSON " + json.dumps({"unit": R.name, "status": R.status, "reason": R.reason[:600], "canary_failed": R.canary_failed,
                                       "verified_fns": len(R.verified_fns), "wall": round(R.wall, 1), "fns": sorted(R.fn_info.keys()),
-                                      "failures": [{"fn": f["fn"], "msg": f["msg"], "clause": (f.get("clause") or "")[:200], "rc": (f.get("fn_info") or {}).get("residual_closures", 0),
+                                      "failures": [{"fn": f["fn"], "msg": f["msg"], "clause": (f.get("clause") or "")[:200], "clause_tags": f.get("clause_tags") or [], "rc": (f.get("fn_info") or {}).get("residual_closures", 0),
                                                     "failed_requires": (f.get("failed_requires") or "")[:200]} for f in R.failures],
                                       "undecided": [{"fn": f.get("fn"), "msg": f["msg"][:200]} for f in R.undecided]}))
         return 0 if (R.status == "ok" and not R.failures and not getattr(A, "lost", None)) else 1
